@@ -18,6 +18,9 @@ type C05Params struct {
 	Mutants int    `json:"mutants"` // per record
 	After   bool   `json:"after"`   // also inject mutants after the genuine record
 	Splice  bool   `json:"splice"`  // records of a parallel session with the same configuration
+	// ReadBuf: size of the buffer the receiving application passes to Read (0 = 16384). A payload
+	// that does not fit may be refused with an error; it is never returned in part.
+	ReadBuf int `json:"read_buf,omitempty"`
 }
 
 func c05Counts(tier string) (int, int) {
@@ -31,6 +34,9 @@ func c05Counts(tier string) (int, int) {
 func c05Gen(r *rand.Rand, tier string, idx int) any {
 	ds := DataCfgs()
 	p := &C05Params{Cfg: ds[idx%len(ds)].Name, Dir: []string{"c2s", "s2c"}[r.IntN(2)], Mutants: 20 + r.IntN(60), After: r.IntN(2) == 0, Splice: r.IntN(4) == 0}
+	if r.IntN(5) == 0 {
+		p.ReadBuf = []int{1, 16, 40, 255, 1000}[r.IntN(5)]
+	}
 	n := 1 + r.IntN(3)
 	for i := 0; i < n; i++ {
 		p.Sizes = append(p.Sizes, []int{1, 2, 15, 16, 17, 31, 32, 33, 64, 255, 256, 1000, 1187, 1188, 4000, 8000}[r.IntN(16)])
@@ -325,7 +331,11 @@ func c05Run(rc *RunCtx, params any) {
 		fromAddr, toAddr = A.pair.SAddr, A.pair.CAddr
 		cidLen = len(cfg.C.CIDOf())
 	}
-	rd := A.pair.StartReader(to)
+	readBuf := 16384
+	if p.ReadBuf > 0 {
+		readBuf = p.ReadBuf
+	}
+	rd := A.pair.StartReaderBuf(to, readBuf)
 	toSock := A.pair.SSock
 	if to == "c" {
 		toSock = A.pair.CSock
@@ -463,7 +473,14 @@ func c05Run(rc *RunCtx, params any) {
 		if !rd.Done {
 			A.net.InjectNow(fromAddr, toAddr, g)
 			s.Settle()
-			if delivered[i] == 0 && (len(rd.Got) == 0 || !bytes.Equal(rd.Got[len(rd.Got)-1], payloads[i])) {
+			if k := len(rd.Got); k > 0 && len(rd.Got[k-1]) < len(payloads[i]) && bytes.HasPrefix(payloads[i], rd.Got[k-1]) {
+				rc.Violate("read-partial", "Read with a %d-byte buffer returned the first %d bytes of a %d-byte payload as if they were a payload", readBuf, len(rd.Got[k-1]), len(payloads[i]))
+
+				return
+			}
+			if p.ReadBuf > 0 && len(payloads[i]) > p.ReadBuf && len(rd.Got) == 0 && rd.Short > 0 {
+				s.Probe("payload-refused-short-buffer") // refused as a whole: allowed; a part of it is caught by checkReads
+			} else if delivered[i] == 0 && (len(rd.Got) == 0 || !bytes.Equal(rd.Got[len(rd.Got)-1], payloads[i])) {
 				rc.Violate("genuine-lost-after-forgeries", "after %d mutants the genuine record %d (%d payload bytes) was not delivered; reader done=%v err=%v", p.Mutants, i, len(payloads[i]), rd.Done, rd.Err)
 
 				return
